@@ -2,6 +2,8 @@ package main
 
 import (
 	"fmt"
+	"go/token"
+	"go/types"
 	"sort"
 	"strings"
 
@@ -541,25 +543,27 @@ func ruleC13_5(c *Ctx) {
 		return
 	}
 	arts := resultN(ra, 0)
-	// classify NewSet calls
+	// classify NewSet calls: the argument is the key list of the recorded artifacts / of link.Products (built in place or
+	// by a key-list helper)
 	var artSet, prodSet ssa.Value
+	var notKeys []string
 	for _, ns := range callsIn(f, "in_toto.NewSet") {
-		for _, src := range appendedSources(ns.Common().Args[0]) {
-			o := org(src)
-			if o == "key(p0.Products)" {
-				prodSet = ns.Value()
-			}
-			if ex, ok := src.(*ssa.Extract); ok {
-				if nx, ok := ex.Tuple.(*ssa.Next); ok {
-					if rg, ok := nx.Iter.(*ssa.Range); ok && resolve(rg.X, rg) == arts && ex.Index == 1 {
-						artSet = ns.Value()
-					}
-				}
-			}
+		m := c.keysOfMap(ns.Common().Args[0], ns)
+		switch {
+		case m == nil:
+			notKeys = append(notKeys, org(ns.Common().Args[0]))
+		case m == arts:
+			artSet = ns.Value()
+		case org(m) == "p0.Products":
+			prodSet = ns.Value()
 		}
 	}
 	if artSet == nil || prodSet == nil {
-		c.bad(R, fn, "name sets", f.Pos(), "cannot identify the set of local artifact names and the set of product names")
+		d := "cannot identify the set of local artifact names and the set of product names"
+		if len(notKeys) > 0 {
+			d = "a name set is built from " + strings.Join(notKeys, ", ") + ", which is not the key list of the recorded artifacts / of link.Products: the names are used to index those maps afterwards"
+		}
+		c.bad(R, fn, "name sets", f.Pos(), d)
 		return
 	}
 	var onlyProd, notProd, both ssa.Value
@@ -733,4 +737,204 @@ func (c *Ctx) stripShape(v ssa.Value, path ssa.Value, isPrefixes func(ssa.Value)
 		}
 	}
 	return false
+}
+
+// rangeKeyOf: v is the key variable of a range over a map (or the element variable of a range over a key list, see
+// keysOfMap); returns the ranged map and the Extract / load instruction's block.
+func rangeKeyOf(v ssa.Value) (ssa.Value, *ssa.BasicBlock) {
+	if ex, ok := v.(*ssa.Extract); ok && ex.Index == 1 {
+		if nx, ok := ex.Tuple.(*ssa.Next); ok {
+			if rg, ok := nx.Iter.(*ssa.Range); ok {
+				if _, isMap := rg.X.Type().Underlying().(*types.Map); isMap {
+					return rg.X, ex.Block()
+				}
+			}
+		}
+	}
+	return nil, nil
+}
+
+// keysOfMap: the slice value v holds exactly the keys of one map, each appended / stored unconditionally in the body of
+// a range over that map: built in place (append of the range key, or res[i] = key into a made slice), or returned by
+// an in-module function that builds its result that way from one of its parameters. Returns the map value in the
+// frame of v.
+func (c *Ctx) keysOfMap(v ssa.Value, at ssa.Instruction) ssa.Value {
+	if m, tr := c.keysOfMapD(v, at, 0); tr == "" {
+		return m
+	}
+	return nil
+}
+
+// keyListOf is keysOfMap for lists that hold f(key) for every key, f one single-argument function (path.Clean):
+// returns the map and the name of f ("" for the keys themselves).
+func (c *Ctx) keyListOf(v ssa.Value, at ssa.Instruction) (ssa.Value, string) {
+	return c.keysOfMapD(v, at, 0)
+}
+
+func (c *Ctx) keysOfMapD(v ssa.Value, at ssa.Instruction, depth int) (ssa.Value, string) {
+	if v == nil || depth > 2 {
+		return nil, ""
+	}
+	if sl, ok := v.(*ssa.Slice); ok && sl.Low == nil && sl.High == nil {
+		v = sl.X
+	}
+	r := resolve(v, at)
+	// helper call
+	if call, idx := producer(r, at); call != nil {
+		if cv, ok := call.(*ssa.Call); ok && calleeName(cv) != "builtin:append" {
+			g := cv.Common().StaticCallee()
+			if g == nil || g.Blocks == nil || g.Pkg == nil || !strings.HasPrefix(g.Pkg.Pkg.Path(), modPath) {
+				return nil, ""
+			}
+			pi, htr := -1, ""
+			rets := returnsOf(g)
+			if len(rets) == 0 {
+				return nil, ""
+			}
+			for ri, ret := range rets {
+				if idx >= len(ret.Results) {
+					return nil, ""
+				}
+				m, tr := c.keysOfMapD(ret.Results[idx], ret, depth+1)
+				prm, ok := m.(*ssa.Parameter)
+				if !ok || prm.Parent() != g || (ri > 0 && tr != htr) {
+					return nil, ""
+				}
+				htr = tr
+				if k := paramIndex(prm); pi >= 0 && pi != k {
+					return nil, ""
+				} else {
+					pi = k
+				}
+			}
+			args := callArgs(cv)
+			if pi < 0 || pi >= len(args) {
+				return nil, ""
+			}
+			return resolve(args[pi], cv), htr
+		}
+	}
+	var m ssa.Value
+	n := 0
+	tr := ""
+	add := func(val ssa.Value, blk *ssa.BasicBlock) bool {
+		t := ""
+		if k, ok := val.(*ssa.Call); ok && len(k.Call.Args) == 1 && k.Block() == blk {
+			if g := k.Common().StaticCallee(); g != nil && calleeName(k) == "path.Clean" {
+				t = calleeName(k)
+				val = k.Call.Args[0]
+			}
+		}
+		mm, kb := rangeKeyOf(val)
+		if mm == nil || kb != blk {
+			return false
+		}
+		mm = resolve(mm, nil)
+		if (m != nil && m != mm) || (n > 0 && t != tr) {
+			return false
+		}
+		m, tr = mm, t
+		n++
+		return true
+	}
+	// made slice filled by index
+	if mk, ok := r.(*ssa.MakeSlice); ok {
+		for _, ref := range *mk.Referrers() {
+			ia, ok := ref.(*ssa.IndexAddr)
+			if !ok {
+				continue
+			}
+			for _, rr := range *ia.Referrers() {
+				if st, ok := rr.(*ssa.Store); ok && st.Addr == ia {
+					if !add(st.Val, st.Block()) {
+						return nil, ""
+					}
+				}
+			}
+		}
+		if n > 0 {
+			return m, tr
+		}
+	}
+	// appended in a loop
+	seen := map[ssa.Value]bool{}
+	okAll := true
+	var rec func(x ssa.Value)
+	rec = func(x ssa.Value) {
+		if x == nil || seen[x] || !okAll {
+			return
+		}
+		seen[x] = true
+		switch y := x.(type) {
+		case *ssa.Phi:
+			for _, e := range y.Edges {
+				rec(e)
+			}
+		case *ssa.Call:
+			if calleeName(y) != "builtin:append" || len(y.Call.Args) != 2 {
+				okAll = false
+				return
+			}
+			rec(y.Call.Args[0])
+			sl, ok := y.Call.Args[1].(*ssa.Slice)
+			if !ok {
+				okAll = false
+				return
+			}
+			al, ok := sl.X.(*ssa.Alloc)
+			if !ok {
+				okAll = false
+				return
+			}
+			for _, r := range *al.Referrers() {
+				if ia, ok := r.(*ssa.IndexAddr); ok {
+					for _, rr := range *ia.Referrers() {
+						if st, ok := rr.(*ssa.Store); ok && !add(st.Val, y.Block()) {
+							okAll = false
+						}
+					}
+				}
+			}
+		case *ssa.Const, *ssa.MakeSlice, *ssa.Slice:
+			// the empty start value ([]string{}, nil, make(.., 0, n))
+			if s, ok := y.(*ssa.Slice); ok {
+				if _, isAlloc := s.X.(*ssa.Alloc); !isAlloc {
+					okAll = false
+				}
+			}
+		default:
+			okAll = false
+		}
+	}
+	rec(r)
+	if okAll && n > 0 {
+		return m, tr
+	}
+	return nil, ""
+}
+
+// elemOfKeys: v is a name taken from the key set of a map: the key variable of a range over the map, or the element
+// variable of a range over the map's key list. Returns the map.
+func (c *Ctx) elemOfKeys(v ssa.Value, at ssa.Instruction) ssa.Value {
+	if m, tr := c.elemOfKeyList(v, at); tr == "" {
+		return m
+	}
+	return nil
+}
+
+// elemOfKeyList is elemOfKeys for lists of f(key), see keyListOf.
+func (c *Ctx) elemOfKeyList(v ssa.Value, at ssa.Instruction) (ssa.Value, string) {
+	r := resolve(v, at)
+	if m, _ := rangeKeyOf(r); m != nil {
+		return resolve(m, nil), ""
+	}
+	if u, ok := r.(*ssa.UnOp); ok && u.Op == token.MUL {
+		if ia, ok := u.X.(*ssa.IndexAddr); ok {
+			return c.keyListOf(ia.X, u)
+		}
+	}
+	if ix, ok := r.(*ssa.Index); ok {
+		return c.keyListOf(ix.X, ix)
+	}
+	return nil, ""
 }
